@@ -199,6 +199,98 @@ Theorem c04_pasha_epsilon_update :
 Proof. exact update_epsilon_spec. Qed.
 Print Assumptions c04_pasha_epsilon_update.
 
+(* Resource cap as a STATE invariant: in every reachable state, the milestone recorded in _running for
+   any trial is a rung level of the trial's own rung system or max_t, and the milestone of every resumed
+   trial is <= the cap in force NOW (eff_max: max_t; PASHA: current_max_t, which only grows, see
+   c04_pasha_cap_monotone, and grows exactly when the ranking of the two top rungs changed, see
+   c04_pasha_cap_increases_iff_ranking_changed). With c04_pause_at_milestone (CONTINUE only below the
+   milestone) no resumed trial is ever told to run beyond the current cap. *)
+Theorem c04_milestones_within_cap :
+  forall cfg, cfg_wf cfg -> forall evs st os, run cfg evs = Ok (st, os) ->
+  forall s rs t ms rf, nth_error (st_sys st) s = Some rs -> lookup t (rs_running rs) = Some (ms, rf) ->
+    (In ms (map r_level (rs_rungs rs)) \/ ms = c_max_t cfg) /\ (rf <> None -> (ms <= eff_max cfg rs)%Z).
+Proof. intros cfg Hcfg evs st os Hrun s rs t ms rf Hn Hl. exact (reach_ML cfg Hcfg evs st os Hrun s rs Hn t ms rf Hl). Qed.
+Print Assumptions c04_milestones_within_cap.
+
+(* A NEW trial started in the lowest bracket (skip_rungs = 0: bracket 0 of a shared rung system, or
+   any bracket with one rung system per bracket) is told to run to the lowest rung level, which is
+   within the cap too. (For higher brackets of a shared PASHA rung system the first milestone may
+   exceed current_max_t: not claimed.) *)
+Theorem c04_start_below_cap :
+  forall cfg evs st os n br b got st' t mra rs,
+  cfg_wf cfg -> run cfg evs = Ok (st, os) -> suggest cfg st n br b got = Ok (st', OStart t mra) ->
+  snd (sys_of cfg br) = 0%nat -> nth_error (st_sys st) (fst (sys_of cfg br)) = Some rs ->
+  (first_milestone cfg rs 0 <= eff_max cfg rs)%Z /\
+  mra = (if c_mra cfg then Some (first_milestone cfg rs 0) else None).
+Proof. exact start_below_cap. Qed.
+Print Assumptions c04_start_below_cap.
+
+(* Whatever bracket was sampled when the trial was started or resumed (br = its _task_info entry): a
+   report of a running trial at its milestone r < max_t is answered PAUSE and is recorded, unpromoted,
+   with its metric and total cost, at the rung of level r of the trial's rung system (system 0 when the
+   rung system is shared) — so the rung contents the eligibility theorems speak about are exactly the
+   reports at that level. *)
+Theorem c04_report_recorded_at_rung :
+  forall cfg evs st os t r m c eps ti br rs rf st' d,
+  cfg_wf cfg -> run cfg evs = Ok (st, os) ->
+  lookup t (st_active st) = Some ti -> ti_dec ti = CONTINUE -> lookup t (st_task st) = Some br ->
+  nth_error (st_sys st) (fst (sys_of cfg br)) = Some rs -> lookup t (rs_running rs) = Some (r, rf) ->
+  (1 <= r < c_max_t cfg)%Z ->
+  on_trial_result cfg st t r m c eps = Ok (st', d) ->
+  d = PAUSE /\
+  exists rs' rg, nth_error (st_sys st') (fst (sys_of cfg br)) = Some rs' /\ In rg (rs_rungs rs') /\
+    r_level rg = r /\ In (mkE t m (total_cost cfg st t c) false) (r_data rg).
+Proof. exact report_recorded. Qed.
+Print Assumptions c04_report_recorded_at_rung.
+
+(* The three-valued comparison in plain arithmetic: Boundary = within tol * |cutoff| of the cutoff
+   (the driver instantiates tol = 1e-12; with tol = 0 exactly the ties), Yes / No = outside that band
+   and no worse / worse than the cutoff. *)
+Theorem c04_boundary_classes :
+  forall md tol m c,
+  (within md tol m c = Boundary <-> Qabs.Qabs (m - c) <= tol * Qabs.Qabs c) /\
+  (within md tol m c = Yes <-> (~ (Qabs.Qabs (m - c) <= tol * Qabs.Qabs c)) /\ better_le md m c = true) /\
+  (within md tol m c = No <-> (~ (Qabs.Qabs (m - c) <= tol * Qabs.Qabs c)) /\ better_le md m c = false).
+Proof. exact within_classes. Qed.
+Print Assumptions c04_boundary_classes.
+
+Theorem c04_boundary_tol0_is_tie : forall md m c, within md 0 m c = Boundary <-> m == c.
+Proof. exact within_tol0. Qed.
+Print Assumptions c04_boundary_tol0_is_tie.
+
+(* hence the eligibility clause (b) of c04_eligibility reads: metric <= cutoff + tol |cutoff| (min),
+   metric >= cutoff - tol |cutoff| (max), cutoff = numpy's linear quantile (c04_quantile_is_numpy_linear) *)
+Theorem c04_eligibility_arith :
+  forall cfg r pos e, c_variant cfg <> VCost -> 0 <= c_tol cfg -> rule_ok cfg r pos e ->
+  exists c, quantile (c_mode cfg) r = Some c /\
+    match c_mode cfg with
+    | Min => e_metric e <= c + c_tol cfg * Qabs.Qabs c
+    | Max => c - c_tol cfg * Qabs.Qabs c <= e_metric e
+    end.
+Proof. exact rule_ok_arith. Qed.
+Print Assumptions c04_eligibility_arith.
+
+(* non-vacuity of the three theorems above: a PASHA state (levels 1, 3, 9; cap = 3) in which trial 0 runs
+   towards milestone 1 <= cap; its report at 1 is recorded at rung 1 and answered PAUSE; and one member of
+   each comparison class *)
+Example c04_example_cap_and_record :
+  let cfg := mkC VPasha Min 27 [(1%Z, 1 # 3); (3%Z, 1 # 3); (9%Z, 1 # 3)] 1 false true false 0 (1 # 1000000000000) true in
+  cfg_wf cfg /\
+  exists st os rs, run cfg [Suggest 0 0 [] true] = Ok (st, os) /\ os = [OStart 0 (Some 1%Z)] /\
+    nth_error (st_sys st) 0 = Some rs /\ lookup 0%Z (rs_running rs) = Some (1%Z, None) /\
+    eff_max cfg rs = 3%Z /\ first_milestone cfg rs 0 = 1%Z /\
+    (exists ti, lookup 0%Z (st_active st) = Some ti /\ ti_dec ti = CONTINUE) /\ lookup 0%Z (st_task st) = Some 0%nat /\
+    exists st', on_trial_result cfg st 0 1 (1 # 2) 0 (mkO [] 0) = Ok (st', PAUSE) /\
+    within Min (c_tol cfg) 1 (5 # 3) = Yes /\ within Min (c_tol cfg) 2 (5 # 3) = No /\
+    within Min (c_tol cfg) (5 # 3) (5 # 3) = Boundary.
+Proof.
+  split; [split; simpl; repeat constructor|].
+  eexists. eexists. eexists. split; [vm_compute; reflexivity|].
+  split; [reflexivity|]. split; [reflexivity|]. split; [reflexivity|]. split; [reflexivity|]. split; [reflexivity|].
+  split; [eexists; split; reflexivity|]. split; [reflexivity|].
+  eexists. split; [vm_compute; reflexivity|]. vm_compute. repeat split; reflexivity.
+Qed.
+
 (* The boolean checkers the correspondence driver evaluates on protocol-following harness sequences
    imply the hypotheses [consecutive] / [proto_from] of the trace theorems above. *)
 Theorem c04_consecutive_b_sound :
